@@ -24,7 +24,8 @@ Poison == << CallN("NOSUCHFUNC", <<>>), RelRef(CycCol, 1), Bin("/", N(1), N(0)),
 Assign == << <<Bool(TRUE), Bool(FALSE), Whole(0), Whole(2)>>,
              <<Bool(FALSE), Bool(TRUE), Whole(3), Whole(0)>>,
              <<Whole(1), Whole(0), Bool(TRUE), Blank>>,
-             <<Blank, Whole(-1), Bool(FALSE), Bool(TRUE)>> >>
+             <<Blank, Whole(-1), Bool(FALSE), Bool(TRUE)>>,
+             <<Bool(TRUE), Err("#N/A"), Whole(1), Bool(TRUE)>> >>      \* an error VALUE in a cell (B1): inside the range A1:B1
 WbOfA(asg) == [cells |-> [k \in {<<"Sheet1", i, 1>> : i \in {j \in 1..4 : asg[j].t # "blank"}} |-> [c |-> "const", v |-> asg[k[2]]]],
                names |-> <<>>]
 
@@ -48,8 +49,8 @@ InitCase ==
         case = Mk("if2", CallN("IF", <<Conds[c], Branches[x]>>), g)
   \/ \E c \in 1..Len(Conds), p \in 1..Len(Poison), x \in {1, 4}, side \in BOOLEAN, g \in 1..Len(Assign) :
         case = Mk("if-poison", CallN("IF", IF side THEN <<Conds[c], Poison[p], Branches[x]>> ELSE <<Conds[c], Branches[x], Poison[p]>>), g)
-  \/ \E f \in {"AND", "OR"}, i \in 1..NJ, g \in {1, 3} : case = Mk("junc1", CallN(f, <<Sp(1, JArgs[i])>>), g)
-  \/ \E f \in {"AND", "OR"}, i \in 1..NJ, j \in 1..NJ, g \in {1, 4} : case = Mk("junc2", CallN(f, <<Sp(1, JArgs[i]), Sp(2, JArgs[j])>>), g)
+  \/ \E f \in {"AND", "OR"}, i \in 1..NJ, g \in {1, 3, 5} : case = Mk("junc1", CallN(f, <<Sp(1, JArgs[i])>>), g)
+  \/ \E f \in {"AND", "OR"}, i \in 1..NJ, j \in 1..NJ, g \in {1, 4, 5} : case = Mk("junc2", CallN(f, <<Sp(1, JArgs[i]), Sp(2, JArgs[j])>>), g)
   \/ \E f \in {"AND", "OR"}, i \in 1..NJ, j \in 1..NJ, k \in {1, 2, 5, 6, 9, 13} :
         case = Mk("junc3", CallN(f, <<Sp(1, JArgs[i]), Sp(2, JArgs[j]), Sp(3, JArgs[k])>>), 2)
   \/ \E c \in 1..Len(Conds), g \in 1..Len(Assign) : case = Mk("not", CallN("NOT", <<Conds[c]>>), g)
